@@ -39,6 +39,10 @@ def gen_cases(rng, tier):
     groute = "api" if route.startswith("api") else "potable"
     big = [1001, 2000, 5000] if tier == "thorough" and rng.random() < 0.05 else []
     model = spec.gen_pair_model(rng, groute, target="LAMMPS", nr_choices=[3, 4, 5, 8, 11, 21, 50, 101, 200, 400] + big)
+    if route.startswith("api"):
+      model["api_variant"] = rng.choice([None, None, "tuple", "int_cutoff", "kwargs", "realfile"])
+      if model["api_variant"] == "int_cutoff":
+        model["tab"]["cutoff"] = float(rng.randint(1, 20))
     cases.append({"route": route, "model": model, "style": rng.randrange(1 << 30)})
   # energy exactly 0 at a grid row where the slope is not (root on the grid)
   for i in range(6 if tier == "quick" else 60):
@@ -109,12 +113,13 @@ def run_case(case, ctx):
         if route == "api_class":
           tab = routes.pair_tab_api(model)
           pots = tab.potentials
-          text = routes.write_tab(tab)
+          text = routes.write_to_real_file(tab.write) if model.get("api_variant") == "realfile" else routes.write_tab(tab)
+          ctx.cls("api_variant:%s" % model.get("api_variant"))
         elif route == "api_legacy":
           import atsim.potentials as ap
           pots = routes.pair_potentials_api(model)
           out = io.StringIO()
-          ap.writePotentials("LAMMPS", pots, cutoff, nr, out)
+          ap.writePotentials("LAMMPS", tuple(pots) if model.get("api_variant") == "tuple" else pots, int(cutoff) if model.get("api_variant") == "int_cutoff" else cutoff, nr, out)
           text = out.getvalue()
         else:
           text_in = emit.model_text(model, emit.Style(rng))
